@@ -22,6 +22,21 @@ DESC = {
  "c15_refused_push_front_moves_counter": ("C15", "FuturesOrderedBounded::try_push_front decrements next_outgoing_index before the capacity check", "a refused try_push_front / panicking push_front on a full queue: held futures are never yielded afterwards"),
  "c16_fill_guard_off_by_one": ("C16", "ordered adapters' fill loop: `len() <= cap && running < cap`", "head-of-line stalled with a later output parked and n items in flight: one item too many is pulled"),
  "c17_fo_hint_ignores_parked": ("C17", "FuturesOrdered::size_hint delegates to the inner unordered collection", "an output parked out of turn: the hint is too small by the number of parked outputs"),
+ "c18_tja_err_path_collects": ("C18", "TryJoinAll::poll Err branch collects the in-flight slot indices into a temporary Vec", "a child of try_join_all fails while at least one sibling is still in the queue: heap allocation after construction"),
+ "c03_drop_waker_wrong_layout": ("C03", "waker_list.rs drop_waker releases the block with layout(len + 1) instead of layout(len)", "a waker outlives the collection and is the last owner; visible (with cache padding) only for capacities where the extra slot crosses a padding boundary"),
+ "c13_mu_cursor_clamped": ("C13", "MergeUnbounded: after an item the cursor is clamped to the last group instead of wrapping", "two or more groups, an always-ready stream in the LAST group, a woken victim in an earlier group: starved"),
+ "c14_vacant_slot_self_wake": ("C14", "FuturesUnorderedBounded: dequeuing a vacant slot wakes the task and returns Pending", "a stale wake of a finished child (retained waker fired later, or self-wake in the completing poll): spurious task wakes although no child waker was invoked since"),
+ "c06_ja_drop_early_exit": ("C06", "Drop for JoinAll stops scanning after `collected` slots (counts every slot scanned)", "join_all dropped while a pending input has a lower index than a completed one: that output leaks"),
+ "c10_bu_upstream_polled_after_none": ("C10", "BufferUnordered defers dropping the ended upstream until after the in-flight queue is polled (which returns early)", "upstream ends while a future is still in flight: upstream is polled again after None"),
+ "c05_slotmap_last_child_deferred_drop": ("C05", "PinSlotMap::remove defers dropping the last occupant until the next insert", "a child completing as the only live entry of its set is not dropped when its output is returned"),
+ "c12_merge_requeues_all_on_end": ("C12", "MergeBounded re-queues every source of the group when one source ends", "one source returns None while others are pending and un-woken: each gets an unprompted poll"),
+ "d1_ordered_capacity_zero": ("C15", "revert of fix d0831c9", "FuturesOrderedBounded::new(0) / FuturesOrdered::with_capacity(0) / buffered_ordered(0)"),
+ "d2_join_all_leak": ("C06", "revert of fix d795b67", "join_all / try_join_all dropped while pending with outputs already collected"),
+ "d3_try_join_all_uninit": ("C07", "revert of fix 1856dee", "try_join_all polled again after Err"),
+ "d4_try_buffered_size_hint": ("C17", "revert of fix dde8a41", "try_buffered_* after upstream ended with futures in flight"),
+ "d5_buffered_ordered_backlog": ("C16", "revert of fix 284ce65", "buffered_ordered with a stalled head-of-line future"),
+ "d7_mu_starvation": ("C13", "revert of fix 4d0a8c8", "MergeUnbounded: always-ready stream in one group, woken victim in another"),
+ "d8_mu_pending_when_ended": ("C11", "revert of fix c614f8e", "MergeUnbounded: streams of both groups end in one poll with the cursor on the last group"),
  "c18_fu_swap_remove": ("C18", "FuturesUnordered::poll_next removes a drained group with swap_remove", "three or more groups, a small group drains while larger ones hold futures: the largest group is no longer last, gets discarded when it drains and is re-allocated: allocations grow with the number of futures processed"),
 }
 res = {}
@@ -39,7 +54,7 @@ for sid, (prop, change, needs) in DESC.items():
     meta = {
         "id": sid, "property": prop, "change": change, "needs_to_manifest": needs,
         "patch": "patch.diff", "demonstration": demo[0] if demo else None,
-        "origin": "written by an independent sub-agent that saw only the property text and a scratch worktree of /repo",
+        "origin": ("reverse of one of this repository's `fix:` commits (demo written by a sub-agent from the fix commit)" if sid.startswith("d") else "written by an independent sub-agent that saw only the property text and a scratch worktree of /repo"),
         "confirmed_by": "tools/confirm_seed.sh in the scratch worktree: `cargo test --offline --lib --tests` = 44 passed with the change; the demo test fails with the change and passes without it",
         "evaluated_by": "tools/eval_seeds.sh: git -C /repo apply patch.diff; ./check %s --tier quick; git -C /repo checkout -- ." % prop,
         "detection": res.get(sid, {}),
